@@ -2,14 +2,17 @@
 def instances(tier):
     T = 'ton'
     out = [(T, 'VH_C17_shard_roundtrip', [], {}), (T, 'VH_C17_shard_match_account', [], {}), (T, 'VH_C17_shard_match_block', [], {}),
-           (T, 'VH_C17_shard_family', [], {}), (T, 'VH_C17_shard_parent_child', [], {}), (T, 'VH_C17_convertShardIdent', [], {})]
+           (T, 'VH_C17_shard_family', [], {}), (T, 'VH_C17_shard_parent_child', [], {}), (T, 'VH_C17_convertShardIdent', [], {}),
+           (T, 'VH_C17_account_tl', [], {}), (T, 'VH_C17_account_tlb', [], {})]
+    for d in ([1, 8, 30] if tier == 'quick' else list(range(1, 31))):
+        out.append((T, 'VH_C17_anycast', [d], {}))
     return out
 
 
 CHECK = dict(
-    id='C17', pkgs=['ton'], init_pkgs=[], instances=instances, opts={'budget_s': 1200},
-    level_text='Shard algebra (ParseShardID/Encode/MatchAccountID/MatchBlockID, shardChild/shardParent, convertShardIdent) is executed symbolically for ALL 2^64 shard ids and all account prefixes and compared with loop-written prefix references.',
+    id='C17', pkgs=['ton'], init_pkgs=['std:io'], instances=instances, opts={'budget_s': 1200},
+    level_text='TL form (LE32 workchain + 32 raw bytes) and TL-B form (ToMsgAddress / AccountIDFromTlb, anycast rewrite for the stated depths) of AccountID round-trip for all addresses and workchains; shard algebra (ParseShardID/Encode/MatchAccountID/MatchBlockID, shardChild/shardParent, convertShardIdent) is executed symbolically for ALL 2^64 shard ids and all account prefixes and compared with loop-written prefix references.',
     level_note='Full 64-bit domain for the shard algebra (no bound other than the types).',
     bounds={'shard ids': 'all 2^64', 'accounts': 'all 256-bit addresses (first 8 bytes are the ones read)'},
-    outside_claim=[],
+    outside_claim=['user-friendly base64 form and its CRC16 (whole-stream CRC reasoning did not fit the session: not built)', 'raw text / JSON form (decimal text of symbolic integers)', 'ADNL base32 form'],
 )
